@@ -79,6 +79,14 @@ def check_shape(run, rng, model, m, tier, light=False):
             run.violation("oracle:clean_refusal", dict(base, what="asn1c did not refuse an unresolvable `{@...}` reference with its diagnostic", asn1c_rc=m.get("asn1c_rc"),
                                                        asn1c_out=m.get("asn1c_out", "")[-800:]))
         return
+    if not m.get("exe") and m.get("asn1c_rc") == 0 and m["rep"] == "wide":
+        # finding C18-optional-identifier-wide-selector: the selector of an open type governed by an OPTIONAL member declares its value as
+        # `const <member name>_t *` under -fwide-types (asn1c_type_name()'s static buffer is overwritten by MKID_safe() before it is used)
+        named = [members[i] for i in pyres if members[i]["opt"]]
+        if named and all(re.search(r"unknown type name .%s_t" % re.escape(c_name(x["name"])), m.get("build_log", "")) for x in named) and \
+           not re.search(r"error: (?!unknown type name .(%s)_t)" % "|".join(re.escape(c_name(x["name"])) for x in named), m.get("build_log", "")):
+            run.known_finding("C18-optional-identifier-wide-selector", m["name"])
+            return
     if not m.get("exe"):
         run.violation("build:module", dict(base, what="asn1c rejected a frame-shape module or its output does not compile", asn1c_rc=m.get("asn1c_rc"),
                                            asn1c_out=m.get("asn1c_out", "")[-1500:], build_log=m.get("build_log", "")[-1500:]))
@@ -170,7 +178,7 @@ def check_shape(run, rng, model, m, tier, light=False):
                             continue
                         decoys += [r for r, row in enumerate(SHAPE_ROWS) if row[col] == a[j]]
                 for d in sorted(set(decoys) - {rows[k]})[:2 if tier == "quick" else 4]:
-                    frames.append(("decoy", a, dict(inner, **{k: SHAPE_ROWS[d][o["field"]]})))
+                    frames.append(("decoy", a, dict(list(inner.items()) + [(k, SHAPE_ROWS[d][o["field"]])])))
         else:
             inner = {k: SHAPE_ROWS[rows[k] if rows[k] is not None else 0][members[k]["field"]] for k, _ in opens}
             frames.append(("norow", a, inner))
@@ -293,5 +301,9 @@ def check_zero(run, model, m, Fc, tier):
         if syn == "oer":
             if judged and m_ok != c_ok:
                 run.violation("correspondence:OpenTypeContainer.oer_dec_open", dict(rp, what="C frame decoder and the model's OER container reader disagree"), no_input=True)
+        elif m_ok != c_ok and syn == "ber" and c_ok == inner_ok:
+            # the shared reference decoder is stricter than the C on invalid inner bytes (BOOLEAN with empty contents ...): what C18 states
+            # is that the frame carries exactly what the C's decoder of the selected row's type makes of the container (judged above)
+            run.count("zero_ber_reference_decoder_differs")
         elif m_ok != c_ok:
             run.violation("correspondence:OpenType.%s_dec_frame" % syn, dict(rp, what="C decoder and the frame model disagree in the zero-bit sweep"), no_input=(c_ok == inner_ok))
